@@ -6,7 +6,9 @@ import (
 	"fmt"
 	"math/big"
 	"os"
+	"runtime"
 	"sync"
+	"sync/atomic"
 	"testing"
 	"testing/synctest"
 
@@ -43,6 +45,8 @@ func (a *mlAsset) Equal(b channel.Asset) bool {
 	return ok && *o == *a
 }
 
+var skewSrc, skewSink atomic.Uint32
+
 var mlLedgers = map[string]mlID{"1A": {1, "A"}, "1B": {1, "B"}, "2A": {2, "A"}}
 
 // fakeLedger is a scripted per-ledger adjudicator and funder whose calls block
@@ -52,6 +56,9 @@ type fakeLedger struct {
 	mu   sync.Mutex
 	gate chan struct{}
 	fail bool
+	// barrier: sub-calls released together leave it at the same instant
+	spin *atomic.Int32
+	need int32
 	// observations
 	started, finished int
 	methods           []string
@@ -65,11 +72,23 @@ func (f *fakeLedger) call(method string) error {
 	<-f.gate
 	f.mu.Lock()
 	f.finished++
+	spin, need := f.spin, f.need
 	f.mu.Unlock()
+	var ret error
 	if f.fail {
-		return errors.New("scripted failure on ledger " + f.name)
+		ret = errors.New("scripted failure on ledger " + f.name)
 	}
-	return nil
+	if spin != nil {
+		spin.Add(1)
+		for spin.Load() < need {
+			runtime.Gosched()
+		}
+		// a few hundred nanoseconds of skew, different in every run: who returns first is not always the same
+		for i, n := 0, int(skewSrc.Add(7919)%4000); i < n; i++ {
+			skewSink.Add(1)
+		}
+	}
+	return ret
 }
 
 func (f *fakeLedger) Register(context.Context, channel.AdjudicatorReq, []channel.SignedState) error {
@@ -199,6 +218,25 @@ func runMultiPath(t *testing.T, res *Result, init *tla.Node, path []*tla.Edge) {
 				l := e.Act.Args[0].(string)
 				opened[l] = true
 				close(ledgers[l].gate)
+			case "CompleteAll":
+				var run []*fakeLedger
+				for n, l := range ledgers {
+					l.mu.Lock()
+					if l.started > l.finished && !opened[n] {
+						run = append(run, l)
+						opened[n] = true
+					}
+					l.mu.Unlock()
+				}
+				bar := &atomic.Int32{}
+				for _, l := range run {
+					l.mu.Lock()
+					l.spin, l.need = bar, int32(len(run))
+					l.mu.Unlock()
+				}
+				for _, l := range run {
+					close(l.gate)
+				}
 			}
 			synctest.Wait()
 			got := observe()
@@ -230,6 +268,7 @@ func TestMulti(t *testing.T) {
 	if dot == "" {
 		t.Skip()
 	}
+	UseYieldLogger() // a log call takes time, as with a real logger
 	res := NewResult("multi")
 	defer func() {
 		if err := res.Write(); err != nil {
@@ -253,6 +292,15 @@ func TestMulti(t *testing.T) {
 			if len(n.Out) == 0 {
 				res.Add("behaviours", 1)
 				runMultiPath(t, res, in, path)
+				for _, e := range path { // simultaneous completions: the interleaving is the scheduler's, so several runs
+					if e.Act.Name == "CompleteAll" {
+						for k := 0; k < 15; k++ {
+							runMultiPath(t, res, in, path)
+						}
+						res.Add("simultaneous_completion_behaviours", 1)
+						break
+					}
+				}
 				if res.Counts["behaviours"] <= 2 {
 					res.Sample(map[string]any{"scenario": tla.String(in.State["sc"]), "steps": tla.Steps(path)})
 				}
